@@ -86,3 +86,100 @@ def expected_data_bytes(cx, type_, vals):
         names = [a for a in MSG[type_][2] if a != 'channel']
         return cx.And(*[cx.eq(d[i], vals[a]) for i, a in enumerate(names)])
     return layout
+
+
+def decide(cx, cond):
+    """Truth of cond on this path: by validity when the path decides it,
+    otherwise by a certified fork."""
+    if isinstance(cond, bool):
+        return cond
+    if cx.valid(cond):
+        return True
+    if cx.valid(cx.Not(cond)):
+        return False
+    return bool(cond)
+
+
+def is_subsequence(cx, needle, hay):
+    """Greedy in-order matching (complete for subsequence existence once every
+    equality it looks at is decided on the path)."""
+    j = 0
+    for x in needle:
+        while True:
+            if j >= len(hay):
+                return False
+            y = hay[j]
+            j += 1
+            if x is y or decide(cx, x == y):
+                break
+    return True
+
+
+def is_rt_status(cx, b):
+    """b is one of the six defined real-time status bytes (decided per path)."""
+    return decide(cx, cx.Or(b == 0xF8, b == 0xFA, b == 0xFB, b == 0xFC, b == 0xFE, b == 0xFF))
+
+
+def wellformed_bytes(cx, bs):
+    """Formula: the list of byte values is exactly one well-formed MIDI message."""
+    from .C02 import well_formed
+    return well_formed(cx, list(bs))
+
+
+INF = float('inf')
+
+
+def ref_len(cx, s):
+    """Spec length for a status byte that opens a multi-byte message (forks)."""
+    if s < 0xC0:
+        return 3
+    if s < 0xE0:
+        return 2
+    if s < 0xF0:
+        return 3
+    if s == 0xF0:
+        return INF
+    if s == 0xF1:
+        return 2
+    if s == 0xF2:
+        return 3
+    return 2       # F3
+
+
+def arbitrary_parser(cx, mido, k, active, queued=0, tag=''):
+    """A real Parser put DIRECTLY into an arbitrary state satisfying the
+    tokenizer's representation invariant (see C04._inv): active with buffer
+    [status, d1..d(k-1)] or idle with k stale bytes; `queued` opaque messages
+    already pending.  Calling it twice with the same tag yields two parsers in
+    the same symbolic state."""
+    from pysym.core import Unmodelled
+    p = mido.Parser()
+    tok = getattr(p, '_tok', None)
+    if tok is None or not all(hasattr(tok, a) for a in ('_status', '_bytes', '_messages')):
+        raise Unmodelled('tokenizer internals (_tok._status/_bytes/_messages) not found')
+    if active:
+        s = cx.int(tag + 'status', 0x80, 0xF3)
+        cx.assume(cx.Or(s <= 0xEF, s >= 0xF0))
+        L = ref_len(cx, s)
+        if not (k < L):
+            cx.assume(False)
+        pre = [s] + [cx.int('%sd%d' % (tag, i), 0, 127) for i in range(k - 1)]
+        tok._status = s
+        tok._bytes = pre
+        tok._len = L
+    else:
+        pre = [cx.int('%sstale%d' % (tag, i), 0, 255) for i in range(k)]
+        tok._status = 0
+        tok._bytes = pre
+        tok._len = [1, 2, 3, INF][cx.choice(tag + 'stale_len', 4)]
+    for i in range(queued):
+        p.messages.append(mido.Message('note_on', note=cx.int('%sq%d' % (tag, i), 0, 127)))
+    return p, list(pre)
+
+
+def parser_state(p):
+    """Observable + internal state of a parser as plain comparable data."""
+    tok = p._tok
+    st = tok._status
+    return {'status': st, 'buffer': list(tok._bytes) if not (isinstance(st, int) and st == 0) else None,
+            'queue': [m.bytes() for m in p.messages]}
